@@ -710,19 +710,27 @@ impl Datamodel for ECMAScriptDatamodel {
                 match r.get_type() {
                     Type::Object => {
                         let obj = r.as_object().unwrap();
-                        // Iterate through all members
-                        let ob = obj.borrow();
-                        let p = ob.properties();
+                        // Iterate through all members.
+                        // W3C: the processor acts as if it has made a shallow copy of the collection.
+                        // (The object must not stay borrowed while the body runs: the body may change it.)
+                        let items: Vec<Option<JsValue>> = {
+                            let ob = obj.borrow();
+                            ob.properties()
+                                .index_property_values()
+                                // Skip the last "length" element
+                                .filter(|item_prop| item_prop.enumerable().is_some() && item_prop.enumerable().unwrap())
+                                .map(|item_prop| item_prop.value().cloned())
+                                .collect()
+                        };
                         let mut idx: i64 = 0;
 
                         // Declare 'item' and 'index' if necessary.
                         if self.assign_internal(item_name, "null", true)
                             && (index.is_empty() || self.assign_internal(index, "0", true))
                         {
-                            for item_prop in p.index_property_values() {
-                                // Skip the last "length" element
-                                if item_prop.enumerable().is_some() && item_prop.enumerable().unwrap() {
-                                    match item_prop.value() {
+                            for item_value in &items {
+                                {
+                                    match item_value {
                                         Some(item) => {
                                             #[cfg(feature = "Debug")]
                                             debug!("ForEach: #{} {}={:?}", idx, item_name, item);
